@@ -416,6 +416,7 @@ func (c *Ctx) withConcurrent(fn func()) {
 	savedProve, savedInf, savedProver := c.proveCache, c.infeasCache, c.proverCache
 	ce := newEngine(c.p, c.eff)
 	ce.lockHavoc = true
+	ce.indexLemma, ce.indexLemmaTried = saved.indexLemma, saved.indexLemmaTried
 	c.eng = ce
 	c.proveCache, c.infeasCache, c.proverCache = nil, nil, nil
 	c.concurrent = true
